@@ -375,14 +375,17 @@ def run_case(ctx, case):
     ctx.violation("wrong-output-length", case, got=len(got), want=len(want))
     return True
   exact = exact_class(raw_num, raw_den)
-  has_float = any(isinstance(v, float) for v in list(raw_num.values()) +
-                  list(raw_den.values()))
-  if has_float and (samples == "frac" or isinstance(zspec, Fraction)):
+  if isinstance(zspec, Fraction) and any(
+      isinstance(v, float) for v in list(raw_num.values()) +
+      list(raw_den.values())):
     exact = False    # Python's float * Fraction is a (rounded) float
-  if samples == "frac" and isinstance(zspec, (int, float)):
-    # a float zero contaminates Fractions; an int zero makes the first outputs
-    # int / int = float (true division by the gain) and then does the same
-    exact = False
+  if samples != "sym":
+    # numeric samples go through Python's own arithmetic: exact only with
+    # integer coefficients, a gain of +-1 (no true division) and no float zero
+    coeffs = list(raw_num.values()) + list(raw_den.values())
+    exact = (all(isinstance(v, int) and not isinstance(v, bool)
+                 for v in coeffs) and g in (1, -1)
+             and not isinstance(zspec, float))
   ctx.count("class:" + ("E" if exact else "T"))
   for i, (gv, wv) in enumerate(zip(got, want)):
     try:
@@ -393,11 +396,11 @@ def run_case(ctx, case):
     if exact:
       ok = gl == wv
     else:
-      ok, worst = lin_close(gl, wv, 1e-12)
-      ctx.err("fraction-coefficient-forms", worst, 1e-12)
+      ok, worst = lin_close(gl, wv, 1e-9)
+      ctx.err("toleranced-forms", worst, 1e-9)
     if not ok:
       if frac_gain:   # (expr)/p/q instead of (expr)/(p/q): off by q*q exactly
-        frac_gain = lin_close(gl * (g.denominator ** 2), wv, 1e-12)[0]
+        frac_gain = lin_close(gl * (g.denominator ** 2), wv, 1e-9)[0]
       key = "fraction-a0/unparenthesised-division" if frac_gain \
             else "all-zero-filter/zero-formatted-into-source" if allzero \
             else "wrong-output"
